@@ -5,11 +5,12 @@ PROP = dict(
     extract=[],
     lean_targets=["Chewing.Props.C05"],
     runs=[dict(bin="comp")],
-    scope=comp_scope("ced"),
+    scope=comp_scope("cedc"),
     level="proof",
     exhaustive=False,
     rule="one evaluation = one call of a method of the real CompositionEditor (through the guarded forwarding probe), "
-         "recomputed by the model from the implementation's own pre-state (cursor, cursor stack, composition); "
+         "recomputed by the model from the implementation's own full pre-state and compared on cursor, cursor stack and "
+         "symbols (`cedc` records; the inner composition is compared under C04 as `cedi`); "
          "distinct = distinct record text",
     trusted_base=["no kernel enumeration: all theorems are structural (simp/omega over lists)"],
     assumptions=["component level (DESIGN §12 stage A): CompositionEditor only; the per-key lift "
